@@ -106,7 +106,7 @@ func reversibleOf(c optsdom.Case, v *gen.OptVariant) *ach.File {
 
 func main() {
 	if len(os.Args) < 2 {
-		fmt.Fprintln(os.Stderr, "usage: optsdom oracle|replay ...")
+		fmt.Fprintln(os.Stderr, "usage: optsdom oracle|corr|replay ...")
 		os.Exit(2)
 	}
 	switch os.Args[1] {
@@ -114,6 +114,8 @@ func main() {
 		oracle(os.Args[2:])
 	case "replay":
 		replay(os.Args[2:])
+	case "corr":
+		corr(os.Args[2:])
 	default:
 		fmt.Fprintln(os.Stderr, "unknown mode", os.Args[1])
 		os.Exit(2)
